@@ -106,6 +106,7 @@ Fixpoint parse_class (fuel : nat) (first : bool) (acc : list (N * N)) (x : str) 
           else if is_meta c || N.eqb c 45 then parse_class_item fuel c acc rest
           else PErr true
       | 92 :: [] => PErr false
+      | 91 :: 58 :: _ => PErr true            (* POSIX classes [[:alpha:]] are not modelled *)
       | c :: rest => parse_class_item fuel c acc rest
       end
   end
@@ -167,9 +168,20 @@ with parse_cat (fuel : nat) (acc : re) (x : str) : tok_result re :=
       | [] => POk acc []
       | 124 :: _ => POk acc x
       | 41 :: _ => POk acc x
+      | 40 :: 63 :: c :: rest' =>
+          (* only the non capturing group marker "?:" is modelled; flags and named groups are not *)
+          if N.eqb c 58 then
+            match parse_alt fuel rest' with
+            | POk a (41 :: rest'') =>
+                match parse_rep a rest'' with
+                | POk a' rest''' => parse_cat fuel (RCat acc a') rest'''
+                | PErr u => PErr u
+                end
+            | POk _ _ => PErr false
+            | PErr u => PErr u
+            end
+          else PErr true
       | 40 :: rest =>
-          (* non capturing group marker "?:" *)
-          let rest := match rest with 63 :: 58 :: r => r | _ => rest end in
           match parse_alt fuel rest with
           | POk a (41 :: rest') =>
               match parse_rep a rest' with
@@ -247,6 +259,7 @@ Inductive cres := CPat (p : pattern) | CInvalid | CUnsupported.
 Definition re_compile (ci : bool) (text : str) : cres :=
   let '(st, body) := match text with 94 :: rest => (true, rest) | _ => (false, text) end in
   let '(en, body) := if ends_with_dollar body then (true, removelast body) else (false, body) in
+  if st && match body with 42 :: _ | 43 :: _ | 63 :: _ => true | _ => false end then CUnsupported else
   match parse_alt ((S (S (length body))) * 4)%nat body with
   | POk r [] => CPat (mkPat ci st en r)
   | POk _ (41 :: _) => CInvalid            (* unexpected ) *)
